@@ -26,6 +26,13 @@ def kani_unit(unit, package, into, harness_file, modpath, harnesses, modname="ve
                       extra_inject=list(extra_inject)))
 
 
+def native_unit(unit, package, crate_dir, test_file, props, fn, clause, bounded, **kw):
+    d = dict(unit=unit, engine="native", package=package, crate_dir=crate_dir, test_file=test_file, props=props, fn=fn,
+             clause=clause, bounded=bounded, harnesses=[])
+    d.update(kw)
+    UNITS.append(d)
+
+
 def verus_unit(unit, template, props, functions, **kw):
     d = dict(unit=unit, engine="verus", template=template, props=props, functions=functions, harnesses=[])
     d.update(kw)
@@ -37,3 +44,5 @@ from units_utils import *  # noqa
 from units_air import *  # noqa
 from units_crypto import *  # noqa
 from units_verifier import *  # noqa
+
+import props_meta  # noqa
